@@ -208,6 +208,13 @@ func Use() int {
 	x %= 1
 	return F(x) + len("a")
 }
+
+func Universe(s []int, b []byte) (int, string, bool) {
+	var p *int = nil
+	_ = p
+	s = append(s, int(1))
+	return len(s), string(b), true
+}
 ''',
 # std call forms (conversion of a std type, std alias-free)
 "std/std.go": '''package std
@@ -287,6 +294,13 @@ PATTERNS = [
  '(CallExpr (Builtin "len") _)',
  '(TrulyConstantExpression _)',
  '(Object "x")',
+ # predeclared identifiers named through Symbol
+ '(Symbol "len")',
+ '(CallExpr (Symbol "len") _)',
+ '(CallExpr (Symbol "append") _)',
+ '(Symbol "int")',
+ '(CallExpr (Symbol "string") _)',
+ '(CallExpr (Symbol (Or "int" "len")) _)',
 ]
 
 
@@ -372,6 +386,15 @@ def report(ctx, mism, where):
             ordered.append(m)
     if len(ordered) < len(mism):
         ctx.note("%s: %d mismatching (pattern, node) samples in %d classes; reporting two per class" % (where, len(mism), len(per_class)))
+    # round-robin over the stages so that every way of losing a match shows up among the first reports
+    by_stage = {}
+    for m in ordered:
+        by_stage.setdefault((m["kind"], m.get("stage", "")), []).append(m)
+    ordered = []
+    while any(by_stage.values()):
+        for k in sorted(by_stage):
+            if by_stage[k]:
+                ordered.append(by_stage[k].pop(0))
     for m in ordered:
         if m["kind"] == "panic":
             key = vlib.canon_key({"panic": m["pattern"], "detail": m.get("detail", "")[:80]})
@@ -414,7 +437,7 @@ def run(ctx):
     if col["compared"] == 0 or r.distinct <= col["compared"]:
         raise Inconclusive("TLC emitted %d patterns for %d states" % (col["compared"], r.distinct))
     check_symtab(col["symtab"])
-    drift = col["drift"]
+    drift = col["drift"] or []
     bad_render = [d for d in drift if d["what"] in ("parse error", "parser panic")]
     if bad_render:
         raise Inconclusive("renderer produced a pattern the parser rejects: %s" % bad_render[:3])
